@@ -1,4 +1,4 @@
-import PsecModel.Lemmas.SpecBuild2
+import PsecModel.Lemmas.SpecEquiv5
 /-!
 # C03 — TR-31 key blocks interoperate with an independent implementation of the specification (partial)
 
@@ -16,6 +16,12 @@ written from the grammar).
 
 * `spec_valid_unwraps` (this file, proof in `Lemmas/SpecBuild{,2}.lean`) — **every key block the specification's builder can emit,
   with every encoding freedom, is opened by psec's `unwrap` to the same key and header**.
+
+* `unwrap_eq_spec` (this file, proof in `Lemmas/SpecEquiv{,2,3,4,5}.lean`) — **the refinement theorem: on every string, psec's `unwrap`
+  and the specification's grammar-based verifier return the same thing** (the same key and header, or both reject), provided the
+  string is *canonical* — three laxities of psec's reader, each named in `Canon`, cannot show on it: whitespace between hex
+  pairs of the binary sections, a repeated optional-block id, a pad-block id in another letter case. The two theorems above
+  are instances (what `wrap` and the builder emit is canonical).
 
 **Not proved, validated on every run by the correspondence**: that the specification file is a faithful reading of the printed
 standard (third-party vectors of the repository's test-suite through `Spec.TR31.unwrap`, OpenSSL's own CMAC against `Spec.cmac`,
@@ -57,6 +63,22 @@ theorem spec_valid_unwraps (c : Ciphers) (hc : c.Lawful) (kbpk : Bytes) (h : Hea
     (hk : Spec.TR31.kbpkOk v kbpk = true) :
     unwrapFn c kbpk (Spec.TR31.build c kbpk h forms padMode key pad lower) = .ok (h, key) :=
   spec_valid_unwraps' c hc kbpk h forms padMode key pad lower hw hnp hf v hv hkp hps hcnt hlen hk
+
+/-- **the refinement theorem**: `unwrap` is the specification's verifier on every canonical string (`Canon`: no whitespace in the
+binary sections, no repeated block id, no pad-block id in another letter case — the hypothesis speaks only about what the
+specification's own block parser reads off the string, and is vacuous when that parser rejects) -/
+theorem unwrap_eq_spec (c : Ciphers) (hc : c.Lawful) (kbpk : Bytes) (s : PyStr)
+    (hcanon : ∀ cnt bl rest, Spec.TR31.dec? ((s.drop 12).take 2) = some cnt →
+      Spec.TR31.parseBlocks cnt (s.drop 16) = some (bl, rest) → Canon bl rest) :
+    (unwrapFn c kbpk s).toOption = Spec.TR31.unwrap c kbpk s :=
+  Psec.Tr31.unwrap_eq_spec c hc kbpk s hcanon
+
+/-- in particular, whatever psec's `unwrap` accepts on a canonical string, the independent verifier accepts, with the same result -/
+theorem accepted_is_spec_valid (c : Ciphers) (hc : c.Lawful) (kbpk : Bytes) (s : PyStr) (h : Header) (key : Bytes)
+    (hcanon : ∀ cnt bl rest, Spec.TR31.dec? ((s.drop 12).take 2) = some cnt →
+      Spec.TR31.parseBlocks cnt (s.drop 16) = some (bl, rest) → Canon bl rest)
+    (hu : unwrapFn c kbpk s = .ok (h, key)) : Spec.TR31.unwrap c kbpk s = some (h, key) :=
+  psec_to_spec c hc kbpk s h key hcanon hu
 
 /-! Non-vacuity examples for both theorems and the SP 800-38B CMAC examples are kernel-evaluated in `Props/C03Examples.lean`
 (built by `PsecModel.Tests` in the thorough tier: they cost ≈ 45 s of kernel evaluation). -/
